@@ -42,6 +42,24 @@ type sharedHandle struct {
 	obs string
 }
 
+// encHandle: an Encoder together with the writer it was created over.
+type encHandle struct {
+	e *gojson.Encoder
+	w *SimWriter
+}
+
+func newEncHandle(st *plan.Step) *encHandle {
+	w := NewSimWriter(st.Writer)
+	e := gojson.NewEncoder(w)
+	if hasOpt(st, "nohtml") {
+		e.SetEscapeHTML(false)
+	}
+	if st.S1 != "" || st.S2 != "" {
+		e.SetIndent(st.S1, st.S2)
+	}
+	return &encHandle{e: e, w: w}
+}
+
 var sharedTable map[string]*sharedHandle
 
 func hasOpt(st *plan.Step, o string) bool {
@@ -415,23 +433,20 @@ func (ss *sessState) doStep(i int, st *plan.Step) (obs string) {
 		}
 		return o
 	case "enc_new":
-		w := NewSimWriter(st.Writer)
-		e := gojson.NewEncoder(w)
-		if hasOpt(st, "nohtml") {
-			e.SetEscapeHTML(false)
+		if st.Shared {
+			if sharedTable[st.H] == nil {
+				return "missing-shared-handle"
+			}
+			return "enc_new"
 		}
-		if st.S1 != "" || st.S2 != "" {
-			e.SetIndent(st.S1, st.S2)
-		}
-		ss.handles[st.H] = e
-		ss.handles[st.H+".w"] = w
+		ss.handles[st.H] = newEncHandle(st)
 		return "enc_new"
 	case "enc_encode", "enc_encode_ctx":
-		e, _ := ss.handles[st.H].(*gojson.Encoder)
-		w, _ := ss.handles[st.H+".w"].(*SimWriter)
-		if e == nil {
+		eh, _ := ss.handle(st, st.H).(*encHandle)
+		if eh == nil {
 			return "missing-handle"
 		}
+		e, w := eh.e, eh.w
 		v := valueArg(st)
 		opts, dbg, _ := encOpts(st)
 		before := len(w.Buf)
@@ -450,7 +465,7 @@ func (ss *sessState) doStep(i int, st *plan.Step) (obs string) {
 			}
 			WriteBufferViolations = nil
 		}
-		o := fmt.Sprintf("%s err=%q wrote=%s", st.Op, normErr(err), canonOut(st, w.Buf[before:]))
+		o := fmt.Sprintf("%s err=%q wrote=%s", st.Op, normErr(err), canonOut(st, append([]byte{}, w.Buf[before:]...)))
 		if dbg != nil {
 			o += " dbg=" + debugSummary(dbg.Buf)
 		}
@@ -820,6 +835,9 @@ func execSessions(p *plan.Plan, res *plan.Result) {
 					obj, obs := createHandle(st)
 					sharedTable[st.H] = &sharedHandle{obj: obj, obs: obs}
 				}
+			}
+			if st.Shared && st.Op == "enc_new" && sharedTable[st.H] == nil {
+				sharedTable[st.H] = &sharedHandle{obj: newEncHandle(st), obs: "enc_new"}
 			}
 		}
 	}
